@@ -61,6 +61,15 @@ func verifDir() string {
 	return "/verif"
 }
 
+// outDir: where evidence and replay files go. Runs against a scratch copy of the repository (VERIF_REPO set) must not
+// overwrite the evidence of /repo itself: they write below the scratch copy.
+func outDir() string {
+	if d := os.Getenv("VERIF_REPO"); d != "" && d != "/repo" {
+		return filepath.Join(d, ".verif-out")
+	}
+	return verifDir()
+}
+
 func cmdDump(args []string) {
 	fs := flag.NewFlagSet("dump", flag.ExitOnError)
 	pkg := fs.String("pkg", "", "package patterns (comma separated)")
